@@ -28,7 +28,7 @@ import re
 import shutil
 import struct
 import sys
-import time
+import tempfile
 from collections import deque
 from concurrent.futures import ThreadPoolExecutor
 
@@ -83,10 +83,35 @@ def _status(r):
     return "other"
 
 
+_ROOT = None       # per-run scratch root for the thousands of tiny trace directories
+
+
+def scratch_root():
+    """tmpfs when there is one (the tools run ~3x faster there and the shared
+    .cache/scratch may be cleaned by a concurrent run), else the usual scratch"""
+    global _ROOT
+    if _ROOT is None:
+        if os.path.isdir("/dev/shm") and os.access("/dev/shm", os.W_OK):
+            try:
+                _ROOT = tempfile.mkdtemp(prefix="verif-c16-", dir="/dev/shm")
+            except OSError:
+                _ROOT = None
+        if _ROOT is None:
+            _ROOT = core.mkscratch("c16")
+    return _ROOT
+
+
+def drop_scratch_root():
+    global _ROOT
+    if _ROOT is not None:
+        shutil.rmtree(_ROOT, ignore_errors=True)
+        _ROOT = None
+
+
 def observe(bdir, ks, cs, ring, wrap, want_bytes=False, timeout=120):
     """Materialise, run the tools, project.  Returns the record judged by TLC
     (keys without '_') plus diagnostics (keys with '_')."""
-    d = core.mkscratch("c16")
+    d = tempfile.mkdtemp(prefix="c-", dir=scratch_root())
     try:
         td = os.path.join(d, "ovni")
         evs = encode(ks, cs, wrap)
@@ -383,6 +408,14 @@ def collect_tlc_helper(pid, path):
 # --------------------------------------------------------------------------
 
 def main(pid, tier):
+    scratch_root()
+    try:
+        return _main(pid, tier)
+    finally:
+        drop_scratch_root()
+
+
+def _main(pid, tier):
     ck = core.Check(pid, "model_checking", tier)
     rng = random.Random(core.seed())
     bdir = core.build("hooks")
